@@ -114,8 +114,6 @@ func c14ksRun(r *vfRand, c *c14ksCase, tr *zzc14.Trace) (plan *zzc14.Plan, note 
 	plan = &zzc14.Plan{Gate: gate, UseWait: true, CloseAt: c.closeAt, Concurrent2: c.conc2, MaxSteps: 600}
 	if err != nil {
 		// nothing to close: the bubble must end clean
-		plan.Close = func() error { return nil }
-		plan.CloseAt = 0
 		plan.Run(tr)
 		return plan, "ctor error: " + err.Error()
 	}
